@@ -1,1 +1,223 @@
-// verification harness include for ring_buffer (see /verif/DESIGN.md)
+// Included at the end of /repo/src/buffer/ring_buffer.rs under cfg(futures_intrusive_verif).
+// C19: ring buffers are exact bounded FIFOs and drop every element exactly once.
+
+pub(crate) mod verif_ring {
+    use super::*;
+    use crate::verif::common::*;
+
+    pub const W_WRAP: u32 = 1; // an element was pushed after the write index wrapped around
+    pub const W_FULL_THEN_POP: u32 = 2; // buffer became full and was popped afterwards
+    pub const W_DROP_NONEMPTY: u32 = 4; // the buffer was dropped with elements inside
+
+    /// E-HIST over the public RingBuf API: n push/pop operations on a fresh buffer of capacity `cap`
+    /// against a FIFO model; at the end the buffer is dropped and the drop counters are checked.
+    pub fn hist<B: RingBuf<Item = Tag>, S: Src>(s: &mut S, cap: usize, n: usize) -> u32 {
+        #[cfg(not(kani))]
+        reset_tags(); // (statics start zeroed in every proof harness)
+        let mut buf = B::with_capacity(cap);
+        let mut model = [0u8; 8];
+        let mut len = 0usize;
+        let mut next: u8 = 0;
+        let mut pushed_total = 0usize;
+        let mut was_full = false;
+        let mut bits = 0;
+        assert!(buf.capacity() == cap, "C19 ring buffer: capacity() differs from the requested capacity");
+        let mut step = 0;
+        while step < n && !s.exhausted() {
+            step += 1;
+            let op = s.below(2);
+            if op == 0 {
+                s.assume(len < cap && next < 15);
+                assert!(buf.can_push(), "C19 ring buffer: can_push() is false although fewer than capacity elements are stored");
+                buf.push(Tag(next));
+                model[len] = next;
+                len += 1;
+                next += 1;
+                pushed_total += 1;
+                if pushed_total > cap && cap > 0 { bits |= W_WRAP; }
+                if len == cap { was_full = true; }
+            } else {
+                s.assume(len > 0);
+                assert!(!buf.is_empty(), "C19 ring buffer: is_empty() although elements are stored");
+                let t = buf.pop();
+                assert!(t.0 == model[0], "C19 ring buffer: pop() did not return the oldest element");
+                core::mem::forget(t);
+                let mut j = 0;
+                while j + 1 < len { model[j] = model[j + 1]; j += 1; }
+                len -= 1;
+                if was_full { bits |= W_FULL_THEN_POP; }
+            }
+            assert!(buf.len() == len, "C19 ring buffer: len() differs from the number of stored elements");
+            assert!(buf.is_empty() == (len == 0), "C19 ring buffer: is_empty() inconsistent");
+            assert!(buf.can_push() == (len < cap), "C19 ring buffer: can_push() inconsistent");
+            assert!(buf.capacity() == cap, "C19 ring buffer: capacity() changed");
+        }
+        if len > 0 { bits |= W_DROP_NONEMPTY; }
+        drop(buf);
+        // every element still inside was dropped exactly once, popped ones not at all
+        let mut id: u8 = 0;
+        while id < next {
+            let mut inside = false;
+            let mut j = 0;
+            while j < len { if model[j] == id { inside = true; } j += 1; }
+            assert!(tag_drops(id) == (if inside { 1 } else { 0 }), "C19 ring buffer: an element was not dropped exactly once (or a popped one was dropped)");
+            id += 1;
+        }
+        s.reached(bits);
+        bits
+    }
+
+    #[no_mangle]
+    pub fn fi_verif_replay_ring(name: &str, cfg: u32, _p: u32, s: &mut ScriptSrc<'_>) -> bool {
+        let cap = cfg as usize;
+        match (name, cap) {
+            ("ring_hist_array", 0) => { hist::<ArrayBuf<Tag, [Tag; 0]>, _>(s, 0, 64); }
+            ("ring_hist_array", 1) => { hist::<ArrayBuf<Tag, [Tag; 1]>, _>(s, 1, 64); }
+            ("ring_hist_array", 2) => { hist::<ArrayBuf<Tag, [Tag; 2]>, _>(s, 2, 64); }
+            ("ring_hist_array", 3) => { hist::<ArrayBuf<Tag, [Tag; 3]>, _>(s, 3, 64); }
+            ("ring_hist_array", 4) => { hist::<ArrayBuf<Tag, [Tag; 4]>, _>(s, 4, 64); }
+            #[cfg(feature = "alloc")]
+            ("ring_hist_fixed", _) => { hist::<FixedHeapBuf<Tag>, _>(s, cap, 64); }
+            #[cfg(feature = "alloc")]
+            ("ring_hist_growing", _) => { hist::<GrowingHeapBuf<Tag>, _>(s, cap, 64); }
+            _ => return false,
+        }
+        true
+    }
+
+    #[cfg(kani)]
+    mod proofs {
+        use super::*;
+
+        /// E-STEP for ArrayBuf<Tag,[Tag;C]>: symbolic size / recv_idx / send_idx and contents under the
+        /// representation invariant, one push | pop | Drop.
+        macro_rules! array_step {
+            (@cover 0, $e:expr) => {};
+            (@cover 1, $e:expr) => {};
+            (@cover $c:tt, $e:expr) => { kani::cover!($e, "W ArrayBuf step: write index wrapped"); };
+            ($name:ident, $c:tt) => {
+                #[kani::proof]
+                #[kani::unwind(8)]
+                fn $name() {
+                    const C: usize = $c;
+                    let mut buf = ArrayBuf::<Tag, [Tag; C]>::new();
+                    let size: usize = kani::any();
+                    let recv: usize = kani::any();
+                    let send: usize = kani::any();
+                    kani::assume(size <= C);
+                    if C == 0 {
+                        kani::assume(recv == 0 && send == 0);
+                    } else {
+                        kani::assume(recv < C && send == (recv + size) % C);
+                    }
+                    buf.size = size;
+                    buf.recv_idx = recv;
+                    buf.send_idx = send;
+                    // logical element j (oldest first) carries id j
+                    let mut j = 0;
+                    while j < size {
+                        unsafe { (buf.buffer.as_mut_ptr() as *mut Tag).add((recv + j) % C.max(1)).write(Tag(j as u8)); }
+                        j += 1;
+                    }
+                    let op: u8 = kani::any();
+                    kani::assume(op < 3);
+                    let mut exp_first = 0u8; // id of the expected oldest element afterwards
+                    let mut exp_len = size;
+                    let mut pushed = false;
+                    if op == 0 {
+                        kani::assume(size < C);
+                        assert!(buf.can_push(), "C19 ArrayBuf step: can_push() false with free space");
+                        buf.push(Tag(9));
+                        exp_len = size + 1;
+                        pushed = true;
+                    } else if op == 1 {
+                        kani::assume(size > 0);
+                        let t = buf.pop();
+                        assert!(t.0 == 0, "C19 ArrayBuf step: pop() did not return the oldest element");
+                        core::mem::forget(t);
+                        exp_first = 1;
+                        exp_len = size - 1;
+                    } else {
+                        drop(buf);
+                        let mut id = 0u8;
+                        while (id as usize) < C {
+                            assert!(tag_drops(id) == (if (id as usize) < size { 1 } else { 0 }),
+                                "C19 ArrayBuf step: Drop did not drop exactly the stored elements once each");
+                            id += 1;
+                        }
+                        assert!(tag_drops(9) == 0, "C19 ArrayBuf step: Drop touched an element that is not stored");
+                        return;
+                    }
+                    // invariant + observers
+                    assert!(buf.size == exp_len && buf.len() == exp_len, "C19 ArrayBuf step: len() wrong after the operation");
+                    assert!(buf.is_empty() == (exp_len == 0), "C19 ArrayBuf step: is_empty() inconsistent");
+                    assert!(buf.can_push() == (exp_len < C), "C19 ArrayBuf step: can_push() inconsistent");
+                    assert!(buf.capacity() == C, "C19 ArrayBuf step: capacity() wrong");
+                    if C > 0 {
+                        assert!(buf.recv_idx < C && buf.send_idx == (buf.recv_idx + buf.size) % C,
+                            "C19 ArrayBuf step: index invariant broken (wrap-around)");
+                    }
+                    // logical sequence = old sequence minus the popped / plus the pushed element
+                    let mut j = 0;
+                    while j < exp_len {
+                        let id = unsafe { (*(buf.buffer.as_ptr() as *const Tag).add((buf.recv_idx + j) % C.max(1))).0 };
+                        let want = if pushed && j == exp_len - 1 { 9 } else { exp_first + j as u8 };
+                        assert!(id == want, "C19 ArrayBuf step: stored sequence differs from the FIFO model");
+                        j += 1;
+                    }
+                    let mut id = 0u8;
+                    while (id as usize) < C {
+                        assert!(tag_drops(id) == 0, "C19 ArrayBuf step: push/pop dropped an element");
+                        id += 1;
+                    }
+                    array_step!(@cover $c, pushed && buf.send_idx == 0);
+                    core::mem::forget(buf);
+                }
+            };
+        }
+        array_step!(array_step_c0, 0);
+        array_step!(array_step_c1, 1);
+        array_step!(array_step_c2, 2);
+        array_step!(array_step_c3, 3);
+        array_step!(array_step_c4, 4);
+
+        macro_rules! hist_proof {
+            (@cover 0, $b:expr) => { let _ = $b; };
+            (@cover $wit:tt, $b:expr) => { kani::cover!($b & $wit != 0, "W ring hist: interesting sequence reached"); };
+            ($name:ident, $ty:ty, $cap:expr, $n:expr, $unw:expr, $wit:tt) => {
+                #[kani::proof]
+                #[kani::unwind($unw)]
+                fn $name() {
+                    let b = hist::<$ty, _>(&mut KaniSrc, $cap, $n);
+                    hist_proof!(@cover $wit, b);
+                }
+            };
+        }
+        hist_proof!(array_hist_c0, ArrayBuf<Tag, [Tag; 0]>, 0, 2, 6, 0);
+        hist_proof!(array_hist_c1, ArrayBuf<Tag, [Tag; 1]>, 1, 4, 6, W_WRAP);
+        hist_proof!(array_hist_c2, ArrayBuf<Tag, [Tag; 2]>, 2, 6, 8, W_WRAP);
+        hist_proof!(array_hist_c3, ArrayBuf<Tag, [Tag; 3]>, 3, 8, 10, W_WRAP);
+        hist_proof!(array_hist_c4, ArrayBuf<Tag, [Tag; 4]>, 4, 10, 12, W_WRAP);
+        hist_proof!(fixed_hist_c0, FixedHeapBuf<Tag>, 0, 2, 6, 0);
+        hist_proof!(fixed_hist_c1, FixedHeapBuf<Tag>, 1, 4, 6, W_FULL_THEN_POP);
+        hist_proof!(fixed_hist_c2, FixedHeapBuf<Tag>, 2, 6, 8, W_FULL_THEN_POP);
+        hist_proof!(fixed_hist_c3, FixedHeapBuf<Tag>, 3, 6, 8, W_FULL_THEN_POP);
+        hist_proof!(fixed_hist_c1_n3, FixedHeapBuf<Tag>, 1, 3, 6, W_FULL_THEN_POP);
+        hist_proof!(fixed_hist_c2_n3, FixedHeapBuf<Tag>, 2, 3, 6, W_FULL_THEN_POP);
+        hist_proof!(growing_hist_c2_n3, GrowingHeapBuf<Tag>, 2, 3, 6, W_FULL_THEN_POP);
+        hist_proof!(fixed_hist_c2_n4, FixedHeapBuf<Tag>, 2, 4, 6, W_FULL_THEN_POP);
+        hist_proof!(growing_hist_c1_n3, GrowingHeapBuf<Tag>, 1, 3, 6, W_FULL_THEN_POP);
+        hist_proof!(growing_hist_c2_n4, GrowingHeapBuf<Tag>, 2, 4, 6, W_FULL_THEN_POP);
+        hist_proof!(growing_hist_c0, GrowingHeapBuf<Tag>, 0, 2, 6, 0);
+        hist_proof!(growing_hist_c1, GrowingHeapBuf<Tag>, 1, 4, 6, W_FULL_THEN_POP);
+        hist_proof!(growing_hist_c2, GrowingHeapBuf<Tag>, 2, 6, 8, W_FULL_THEN_POP);
+        hist_proof!(growing_hist_c3, GrowingHeapBuf<Tag>, 3, 6, 8, W_FULL_THEN_POP);
+
+        #[kani::proof]
+        #[kani::unwind(8)]
+        fn array_witness_c2() {
+            let b = hist::<ArrayBuf<Tag, [Tag; 2]>, _>(&mut KaniSrc, 2, 5);
+            assert!(b & (W_WRAP | W_DROP_NONEMPTY) != (W_WRAP | W_DROP_NONEMPTY), "WITNESS reached");
+        }
+    }
+}
